@@ -195,7 +195,10 @@ type pworld struct {
 
 var privKey = keyBytes(77)
 
-func newPWorld(keyed, encrypt bool) (*pworld, error) {
+// every second serialisation creates its Message before the stream's final crypto mode is set
+var serialiseCalls int
+
+func newPWorld(keyed, encrypt bool, early **message.Message) (*pworld, error) {
 	w := &pworld{ac: bufconn.New(), bc: bufconn.New()}
 	w.as, w.bs = stream.NewStream(w.ac), stream.NewStream(w.bc)
 	if keyed {
@@ -206,6 +209,12 @@ func newPWorld(keyed, encrypt bool) (*pworld, error) {
 			return nil, err
 		}
 		w.dir, _ = refcodec.NewDir(privKey, [32]byte{}, [32]byte{})
+	}
+	if early != nil {
+		// the outgoing Message may exist before the stream reaches its final crypto mode (an
+		// application builds it right after the handshake and switches the mode afterwards): what
+		// matters is the stream's state when the ad is written, not when the Message was made
+		*early = message.NewMessageForStream(w.as)
 	}
 	w.as.SetEncrypted(encrypt)
 	w.bs.SetEncrypted(encrypt)
@@ -248,11 +257,19 @@ func (w *pworld) split(out []byte) ([]pframe, error) {
 
 // serialise runs the real sender; returns the frames and all bytes written.
 func serialise(pc *pcase, ad *classad.ClassAd) (fs []pframe, wire []byte, w *pworld, err error) {
-	w, err = newPWorld(pc.keyed, pc.encrypt)
+	serialiseCalls++
+	var m *message.Message
+	if serialiseCalls%2 == 0 {
+		w, err = newPWorld(pc.keyed, pc.encrypt, &m)
+	} else {
+		w, err = newPWorld(pc.keyed, pc.encrypt, nil)
+	}
 	if err != nil {
 		return nil, nil, nil, err
 	}
-	m := message.NewMessageForStream(w.as)
+	if m == nil {
+		m = message.NewMessageForStream(w.as)
+	}
 	if err = m.PutClassAdWithOptions(bg, ad, pc.config()); err != nil {
 		return nil, nil, w, err
 	}
@@ -938,7 +955,7 @@ func privErrClass(err error) string {
 // reconstruct: the peer's GetClassAd must give back every attribute that was to be sent, with the
 // same expression, and none that was to be withheld.
 func (pr *privRun) reconstruct(pc *pcase, ad *classad.ClassAd, wire []byte, viol func(key, what, exp, obs string)) {
-	w, err := newPWorld(pc.keyed, pc.encrypt) // a fresh receiver: it learns the IV from the first protected frame
+	w, err := newPWorld(pc.keyed, pc.encrypt, nil) // a fresh receiver: it learns the IV from the first protected frame
 	if err != nil {
 		return
 	}
@@ -1009,7 +1026,7 @@ func (pr *privRun) malformed(pc *pcase, fs []pframe, ops, real *[]string) {
 	}
 	v := vs[c.Rng.Intn(len(vs))]
 	c.Count("malformed:" + v.name)
-	w, err := newPWorld(pc.keyed, pc.encrypt)
+	w, err := newPWorld(pc.keyed, pc.encrypt, nil)
 	if err != nil {
 		return
 	}
